@@ -224,13 +224,16 @@ FinishMod == /\ phase = "process" /\ stack # <<>> /\ Top.pc > Len(Ops(Top.mod)) 
              /\ UNCHANGED <<st, mobj, unproc, classes, phase, post>>
 
 \* ---------------------------------------------------------------- post-processing
-\* second pass: only bases that were None are re-resolved, in the class's parent scope (model.py:575-589)
+\* second pass: only bases that were None are re-resolved (model.compute_mro.init_finalbaseobjects): first the name as
+\* expanded when the class statement was visited (it still designates the base when that object was moved since, or when
+\* the raw name was bound to something else afterwards - class H(H)), then the raw name in the class's parent scope; the
+\* class itself is never its own base
 FinalBases(c) == [b \in 1..Len(classes[c].raw) |->
                     IF classes[c].inito[b] # NoObj THEN classes[c].inito[b]
-                    ELSE LET r  == ResolveName(st, st.objs[c].par, classes[c].raw[b], BO)
-                             \* the class may have been moved since: retry with the name as expanded in its original scope
-                             r2 == IF r # NoObj /\ Cls(st, r) = "Class" THEN r ELSE FindObject(st, classes[c].initb[b], BO)
-                         IN IF r2 # NoObj /\ Cls(st, r2) = "Class" THEN r2 ELSE NoObj]
+                    ELSE LET r1 == FindObject(st, classes[c].initb[b], BO)
+                             r2 == IF r1 # NoObj /\ Cls(st, r1) = "Class" /\ r1 # c THEN r1
+                                   ELSE ResolveName(st, st.objs[c].par, classes[c].raw[b], BO)
+                         IN IF r2 # NoObj /\ Cls(st, r2) = "Class" /\ r2 # c THEN r2 ELSE NoObj]
 PostProcess == /\ phase = "process" /\ stack = <<>> /\ unproc = <<>> /\ ~st.crash
                /\ LET fb == [c \in DOMAIN classes |-> FinalBases(c)] IN
                     \* Class._init_mro: an inconsistent hierarchy (ValueError) falls back on allbases(include_self)
